@@ -36,50 +36,71 @@ SYN = "Result::Err{0: Error::syntax("
 
 @rule("THERE-FOLLOWS", ["C07", "C05", "C09"], floor=4)
 def there_follows(ctx):
-    """there_follows(s): false when fewer than |s| characters remain; otherwise true iff pattern[idx+i] == s[i] for
-    every i (first mismatch -> false). The parser's look-ahead and its bounds safety rest on this."""
-    b, paths = _paths(ctx, "there_follows", 2)
+    """there_follows(s): false when fewer than |s| characters remain; otherwise true iff pattern[idx+k] == s[k] for
+    every k (first mismatch -> false). The parser's look-ahead and its bounds safety rest on this.  The comparison
+    loop is read in turn-indexed form (rxv/lockstep.py): whether it runs over indices, over the characters of s with
+    enumerate, over a zip with the slice pattern[idx..idx+|s|], or pulls the pattern's characters from a second
+    iterator - in turn k it compares chars(s)[k] with pattern[idx+k]."""
+    from ..lockstep import Lockstep
+    b = ctx.body(RC + "there_follows")
     if b is None:
         return [missing(RC + "there_follows")]
     d = {}
-    CH = "Iterator::collect(chars(a2))"
-    short_t = "lt(a1.len, add(a1.idx, len(%s)))" % CH
-    EL = "<Enumerate<I> as Iterator>::next(Iterator::enumerate(%s))" % CH
-    for p, gs, r in paths:
+    loops = b.natural_loops()
+    if len(loops) != 1:
+        return [bad("shape", "there_follows must compare the characters in one loop (found %d)" % len(loops), b.loc())]
+    h = next(iter(loops))
+    SK = "chars(a2)[k]"
+    PK = "a1.pattern[add(a1.idx, k)]"
+    LEN = r"(?:len\((?:Iterator::collect\()?chars\(a2\)\)?\)|(?:<Chars as Iterator>|Iterator)::count\(chars\(a2\)\))"
+    LT = r"lt\(a1\.len, add\((?:a1\.idx, %s|%s, a1\.idx)\)\)" % (LEN, LEN)
+    # what precedes the loop: the length test (absent when the pattern's characters are pulled from an iterator that
+    # simply runs out)
+    pre = set()
+    for p in ctx.walk(b, max_visits=1).paths:
+        gs = [strip_ver(g) for g in summarize(p)[0]]
+        r = strip_ver(summarize(p)[1])
+        if gs and re.match("^" + LT + "$", gs[0]):
+            _rec(d, "too-short", r == "false" and p.end == "return" and len(gs) == 1, "when fewer than |s| characters remain there_follows must answer false; found %s" % r, b.loc(p.blocks[-1]))
+            pre.add("tested")
+        elif gs and re.match("^!" + LT + "$", gs[0]):
+            pre.add("tested")
+    checked_in_loop = False
+    for p in Lockstep(ctx, b, h).paths(ctx):
+        gs, r = summarize(p)
+        gs = [strip_ver(g) for g in gs]
+        r = strip_ver(r)
         loc = b.loc(p.blocks[-1])
-        gs0 = [strip_ver(g) for g in gs]
-        if not gs0:
+        drv = [g for g in gs if g.startswith("variant(next(<")]
+        if not drv:
+            _rec(d, "driver", False, "the comparison loop is not driven by the characters of s (guards %s)" % gs[:2], loc)
             continue
-        if gs0[0] == short_t:
-            _rec(d, "too-short", r == "false", "when fewer than |s| characters remain there_follows must answer false; found %s" % r, loc)
+        m = re.match(r"^variant\(next\(<(.*)>\)\)=(Some|None)$", drv[0])
+        seq = m.group(1) if m else "?"
+        over_s = seq in ("0..len(chars(a2))",) or re.match(r"^min\((a1\.pattern\[a1\.idx\.\.add\(a1\.idx, %s\)\]; 0\.\.len\(chars\(a2\)\)|0\.\.len\(chars\(a2\)\); a1\.pattern\[a1\.idx\.\.add\(a1\.idx, %s\)\])\)$" % (LEN, LEN), seq) is not None
+        _rec(d, "runs-over-s", over_s, "the loop must run over all characters of s from the first; it runs over %s" % seq, loc)
+        cmps = [g for g in gs if re.match(r"^!?eq\(", g)]
+        if m and m.group(2) == "None":
+            _rec(d, "true-after-all-equal", r == "true" and p.end == "return" and not cmps, "when s is used up without a mismatch the answer must be true; found %s" % r, loc)
             continue
-        if gs0[0] != "!" + short_t:
-            _rec(d, "length-test", False, "there_follows must first test idx + |s| <= len; first guard %s" % gs0[0][:100], loc)
+        if not cmps:
+            _rec(d, "compares-same-index", False, "a turn of the loop compares nothing (guards %s)" % gs, loc)
             continue
-        if p.end != "return":
-            continue
-        # `pattern[idx..idx + n].iter().zip(s)` driven by a loop (or by `all`, which the normaliser turns into the
-        # loop): the two sequences are compared position by position
-        sl = "a1.pattern[Range::Range{start: a1.idx, end: add(a1.idx, len(%s))}]" % CH
-        ZN = ("<Zip<A, B> as Iterator>::next(Iterator::zip(%s, %s))" % (sl, CH), "<Zip<A, B> as Iterator>::next(Iterator::zip(%s, %s))" % (CH, sl))
-        zc = [g for g in gs0 if re.match(r"^!?eq\(", g) and "Iterator::zip(" in g]
-        if zc:
-            if r == "true":
-                _rec(d, "true-after-all-equal", gs0[-1].endswith("=None") and all(not g.startswith("!") for g in zc), "true may be answered only after every pair compared equal (iterator exhausted); guards %s" % gs0[-2:], loc)
-            elif r == "false":
-                _rec(d, "false-on-mismatch", zc[-1].startswith("!"), "false must follow a mismatching character", loc)
-            for g in zc:
-                g1 = g.lstrip("!")
-                _rec(d, "compares-same-index", any(g1 in ("eq(%s as Some.0.0, %s as Some.0.1)" % (z, z), "eq(%s as Some.0.1, %s as Some.0.0)" % (z, z)) for z in ZN), "the look-ahead must compare pattern[idx..idx+|s|] with s pairwise; found %s" % g[:200], loc)
-            continue
-        cmps = [g for g in gs0 if re.match(r"^!?eq\(", g) and "a1.pattern[add(a1.idx, " in g]
-        if r == "true":
-            _rec(d, "true-after-all-equal", gs0[-1].endswith("=None") and all(not g.startswith("!") for g in cmps), "true may be answered only after every character compared equal (iterator exhausted); guards %s" % gs0[-2:], loc)
-        elif r == "false":
-            _rec(d, "false-on-mismatch", bool(cmps) and cmps[-1].startswith("!"), "false must follow a mismatching character", loc)
-        for g in cmps:
-            m = re.match(r"^!?eq\((.*) as Some\.0\.1, a1\.pattern\[add\(a1\.idx, (.*) as Some\.0\.0\)\]\)$", g) or re.match(r"^!?eq\(a1\.pattern\[add\(a1\.idx, (.*) as Some\.0\.0\)\], (.*) as Some\.0\.1\)$", g)
-            _rec(d, "compares-same-index", m is not None and strip_ver(m.group(1)) == strip_ver(m.group(2)), "the i-th character of s must be compared with pattern[idx+i]; found %s" % g[:140], loc)
+        g = cmps[-1]
+        g1 = g.lstrip("!")
+        direct = g1 in ("eq(%s, %s)" % (SK, PK), "eq(%s, %s)" % (PK, SK))
+        opt = re.match(r"^eq\((?:Option::Some\{0: (?:ref\()?%s\)?\}, within\(%s, <0\.\.len\(a1\.pattern\) skip a1\.idx>\)|within\(%s, <0\.\.len\(a1\.pattern\) skip a1\.idx>\), Option::Some\{0: (?:ref\()?%s\)?\})\)$" % (re.escape(SK), re.escape(PK), re.escape(PK), re.escape(SK)), g1) is not None
+        _rec(d, "compares-same-index", direct or opt, "turn k must compare the k-th character of s with pattern[idx+k]; found %s" % g[:200], loc)
+        if opt:
+            checked_in_loop = True
+        if g.startswith("!"):
+            _rec(d, "false-on-mismatch", r == "false" and p.end == "return", "a mismatch must answer false; found %s (%s)" % (r, p.end), loc)
+        else:
+            _rec(d, "continues-on-match", p.end.startswith("loop"), "after an equal pair the comparison must go on with the next pair", loc)
+    # bounds: either the length was tested before the loop or every pattern character is fetched with a range check
+    _rec(d, "length-test", bool(pre) or checked_in_loop, "pattern[idx+k] is read without idx + |s| <= len having been established (no length test before the loop, and the characters are not fetched through a checked iterator)", b.loc())
+    if checked_in_loop and not pre:
+        d.setdefault("too-short", [True, "", None])
     for k in ("too-short", "true-after-all-equal", "false-on-mismatch", "compares-same-index"):
         if k not in d:
             d[k] = [False, "there_follows lost its %s clause (restructured look-ahead: re-audit)" % k, b.loc()]
@@ -387,7 +408,7 @@ def parse_class_gates(ctx):
             _rec(d, "subtraction-is-last", bool(tf) and not tf[-1].startswith("!"), "after a subtracted class the outer class is continued without requiring ']' ([a-z-[aeiou]b] accepted)", loc)
         if nested and any(g == '!there_follows(a1, "]")' for g in gs):
             _rec(d, "subtraction-not-last-rejected", r.startswith(SYN), "content after a subtracted class must be Error::Syntax", loc)
-        if any(re.match(r"(?s)^a1\.pattern\[a1\.idx\]='\['$", g) for g in gs[:3]):
+        if any(re.match(r"(?s)^a1\.pattern\[a1\.idx\]='\['$", g) for g in [x for x in gs if "is_case_independent" not in x][:3]):
             _rec(d, "unescaped-bracket-rejected", r.startswith(SYN), "an unescaped '[' inside a class must be Error::Syntax", loc)
     _rec(d, "range-site", n_range >= 1, "parse_character_class no longer adds ranges", b.loc())
     # entry: empty class and end of input
